@@ -145,3 +145,41 @@ CHECKS['C11'] = dict(
         U('inpkg', 'TestVerifC11_ArbitraryBytes', q(320000, 16), q(4800000, 16, cap=1800), pkg='src'),
         U('inpkg', 'TestVerifC11_Grammar', q(160000, 16), q(2400000, 16, cap=1800), pkg='src'),
     ])
+
+CHECKS['C12'] = dict(
+    title='Placeholders expand to shell words that evaluate back to the original text',
+    rule='item texts / queries assembled from every shell metacharacter, newlines, command substitutions with a canary, leading dashes, non-ASCII; 0-4 selected items; templates of 1-6 placeholders out of '
+         '{} {+} {q} {fzf:query} {fzf:prompt} {n} {+n} {N} {A..} {-N} {..} {N,M} {sN} {+N} {q:N} and escaped forms, AWK/literal/regex delimiters; the expansion is evaluated by /bin/sh (dash) and bash and argv is compared. '
+         'non-trivial = some text contains one of quote, backslash, newline, dollar, backtick',
+    assumptions=['fish/zsh are not installed: the fish escaper is checked against a model of fish single-quote syntax only', 'the raw flag {r} is excluded: it is documented to insert the text unquoted'],
+    units=[
+        U('inpkg', 'TestVerifC12_PlaceholderShell', q(4800, 16, cap=400), q(96000, 16, cap=1800), pkg='src'),
+        U('inpkg', 'TestVerifC12_PlaceholderFile', q(4800, 4), q(64000, 8), pkg='src'),
+        U('inpkg', 'TestVerifC12_FishModel', q(20000, 2), q(400000, 4), pkg='src'),
+        U('inpkg', 'TestVerifC12_TmuxRequote', q(3200, 16, cap=400), q(64000, 16, cap=1800), pkg='src'),
+    ])
+
+CHECKS['C18'] = dict(
+    title='The query history file keeps the last N submitted queries in order',
+    rule='state machine over 1-4 sessions (load, any number of previous/next/edit steps, at most one submit) on a real file; limits 1..5; initial files missing / empty / with and without trailing newline / '
+         'surrounded by blank lines / longer than the limit; model = ordered list capped to N + per-session edit map. non-trivial = >=2 sessions, the cap was hit, an edited entry was revisited',
+    assumptions=['initial files have no interior blank lines (fzf loads them as empty entries; the documentation is silent)', 'the cap is asserted after a submit, as the property words it'],
+    units=[
+        U('inpkg', 'TestVerifC18_HistorySessions', q(32000, 16), q(640000, 16, cap=1800), pkg='src'),
+    ])
+
+CHECKS['C17'] = dict(
+    title='Any command line is either accepted as documented or rejected cleanly',
+    rule='(i) bind AST: 1-4 key:action-list pairs, keys from the documented list incl. the escaped , : + forms, 26 argument-taking and 14 plain actions, arguments over an alphabet made of every delimiter character, + , : quotes newline, '
+         '16 delimiter forms + trailing-colon form under the documented restriction: parsed keymap == AST, same AST through another delimiter form gives the same keymap, K:X then K:+Y == K:X+Y; '
+         '(ii) argv of 0-6 tokens from the option vocabulary scraped from the usage text with valid/boundary/garbage values: error xor options, no panic, repeatable; '
+         '(iii) last-wins for 36 valued options; (iv) file < env < argv layering equals the flat parse; (v) sub-parsers on hostile strings. '
+         'non-trivial = an argument containing a delimiter/+/,/: or chained actions (bind), >=2 tokens (argv), two different values (last-wins)',
+    assumptions=['--expect and --color are documented to accumulate and are excluded from last-wins', 'file-touching options get relative paths inside the per-run work directory'],
+    units=[
+        U('inpkg', 'TestVerifC17_BindRoundTrip', q(48000, 16), q(960000, 16, cap=1800), pkg='src'),
+        U('inpkg', 'TestVerifC17_Totality', q(32000, 16), q(640000, 16, cap=1800), pkg='src'),
+        U('inpkg', 'TestVerifC17_LastWins', q(16000, 16), q(320000, 16, cap=1800), pkg='src'),
+        U('inpkg', 'TestVerifC17_EnvPrecedence', q(8000, 8), q(160000, 16, cap=1800), pkg='src'),
+        U('inpkg', 'TestVerifC17_SubParsers', q(64000, 16), q(1600000, 16, cap=1800), pkg='src'),
+    ])
